@@ -1,0 +1,17 @@
+//go:build verif
+
+package starlark
+
+// VerifIterCount reports the number of active iterators recorded on a
+// list, dict or set (read-only). ok is false for any other value.
+func VerifIterCount(v Value) (n uint32, ok bool) {
+	switch v := v.(type) {
+	case *List:
+		return v.itercount, true
+	case *Dict:
+		return v.ht.itercount, true
+	case *Set:
+		return v.ht.itercount, true
+	}
+	return 0, false
+}
